@@ -14,7 +14,7 @@
      MayWrite  == sem says evaluating the context can modify a variable not local to the callee chain
      Rejects   == changes_any_variable() on the context expression is true
    Invariant Sound: MayWrite => Rejects, after every declaration step.                              *)
-EXTENDS Integers, Sequences, FiniteSets, TLC, Json
+EXTENDS Integers, Sequences, FiniteSets, TLC, Json, SequencesExt
 
 CONSTANTS MaxDepth,        \* number of wrappers above the base function
           AllForms         \* TRUE: every statement form at every level; FALSE: wrappers use a reduced set
@@ -70,6 +70,21 @@ Rejects == fam # <<>> /\ (chg[Top] # {} \/ fam[1].target = "refparam")   \* the 
 Sound == MayWrite => Rejects
 (* the analysis may over-approximate only through reference parameters (documented conservatism) *)
 Precise == (Rejects /\ ~MayWrite) => fam[1].target = "refparam"
+
+(* ---- direct writes in side-effect-free contexts (no function involved) *)
+Contexts == {"guard", "invariant", "sync", "prob", "select", "init_global", "init_local", "arrsize", "range", "instarg", "instarg_ref",
+             "forall_body", "exists_body", "sum_body", "assert", "query_EF", "query_AG"}
+LvalueForms == {"assign", "addassign", "preinc", "predec"}       \* the write forms whose value is itself an lvalue
+(* instarg_ref: the argument of a template instantiation bound to a NON-CONST REFERENCE parameter; only an lvalue fits there, so
+   only the lvalue write forms can be placed in it (the others are rejected as arguments, whatever they write) *)
+FitsContext(ctx, wf) == ctx = "instarg_ref" => wf \in LvalueForms
+(* typechecker.cpp calls changes_any_variable() at every one of these sites; for instantiation arguments it does so for every
+   parameter kind before looking at reference compatibility *)
+ChecksSideEffects(ctx) == TRUE
+DirectCases == {d \in [ctx : Contexts, wf : WriteForms, shape : {"scalar", "elem", "field"}] : FitsContext(d.ctx, d.wf)}
+DirectSound == \A d \in DirectCases : ChecksSideEffects(d.ctx)
+ASSUME DirectSound
+ASSUME PrintT(<<"EMIT", ToJson([direct |-> SetToSeq(DirectCases)])>>)
 
 Emit == fam # <<>> => PrintT(<<"EMIT", ToJson([fam |-> fam, maywrite |-> MayWrite, rejects |-> Rejects,
                                                  chg |-> [i \in 1..Len(chg) |-> chg[i] # {}]])>>)
